@@ -257,6 +257,8 @@ pub fn opaque_enforce_ref(s: &str) -> Option<String> {
         "e\u{301}" => Some("\u{e9}".to_string()),
         "\u{30de}\u{30c8}\u{30ea}\u{30c3}\u{30af}\u{30b9}" => Some(s.to_string()),
         "p\u{e9}ss" => Some(s.to_string()),
+        "r\u{a0}m" => Some("r m".to_string()),
+        "p\u{a0}w" => Some("p w".to_string()),
         "\u{e9}" => Some(s.to_string()),
         _ => None,
     }
@@ -333,6 +335,9 @@ pub fn key_menu(full: bool) -> Vec<KeySpec> {
             sha256: false,
         });
         v.push(KeySpec::Long { user: "a", realm: "b", pass: "c", sha256: true });
+        // realm and password that OpaqueString enforcement changes (U+00A0 -> U+0020)
+        v.push(KeySpec::Long { user: "user", realm: "r\u{a0}m", pass: "p\u{a0}w", sha256: false });
+        v.push(KeySpec::Long { user: "user", realm: "r\u{a0}m", pass: "p\u{a0}w", sha256: true });
     }
     v
 }
